@@ -9,6 +9,7 @@ import (
 	"strings"
 	"sync"
 	"sync/atomic"
+	"syscall"
 	"testing"
 	"time"
 
@@ -68,7 +69,7 @@ func genC17(t *rapid.T) c17Case {
 		var cc c17Conn
 		nops := rapid.IntRange(0, 4).Draw(t, "nops")
 		for j := 0; j < nops; j++ {
-			op := c17Op{Kind: rapid.SampledFrom([]string{"pkt", "pkt", "pkt", "partial", "eof"}).Draw(t, "kind")}
+			op := c17Op{Kind: rapid.SampledFrom([]string{"pkt", "pkt", "pkt", "partial", "eof", "reset"}).Draw(t, "kind")}
 			switch op.Kind {
 			case "pkt":
 				op.Pieces = rapid.SampledFrom([]int{1, 1, 2, 3, 0}).Draw(t, "pieces")
@@ -334,6 +335,10 @@ scripts:
 			case "eof":
 				conn.FeedEOF()
 				conn.AwaitClosed(3 * time.Second) // if it stays open the log oracle reports it after teardown
+			case "reset":
+				ev.Class("read-fails-with-connection-reset")
+				conn.FeedError(syscall.ECONNRESET)
+				conn.AwaitClosed(3 * time.Second)
 			}
 		}
 	}
